@@ -107,6 +107,7 @@ func (c *cluster) onWireMsg(m *streamMon, w *wireMsg) {
 			}
 		case *timeoutNowReq:
 			c.stats.class("wire-timeoutNow")
+			c.lastTN = tnConn{from: idOfHost(w.conn.from), to: idOfHost(w.conn.to), seq: w.conn.seq, set: true}
 			c.onTimeoutNowWritten(src, w)
 		case *installSnapReq:
 			c.stats.class("wire-installSnap")
@@ -268,6 +269,13 @@ type timeoutNowRec struct {
 	lastTerm   uint64
 	cfg        Config
 	step       int
+}
+
+// tnConn names the connection the most recent timeout-now request was written on.
+type tnConn struct {
+	from, to uint64
+	seq      int
+	set      bool
 }
 
 func (c *cluster) onTimeoutNowWritten(src *simNode, w *wireMsg) {
